@@ -29,7 +29,7 @@ ASSUMPTIONS = [
     "addresses is not counted as a violation (DESIGN.md C19), such cases are counted as discards",
 ]
 TRUSTED = ["CPython", "Hypothesis", "reference S-record parser in vf/props/c19.py", "GNU objdump (BFD srec)"]
-REGISTER = False
+REGISTER = True
 TECHNIQUE = "Hypothesis code sections; spec-derived S-record parser + GNU BFD srec reader"
 LEVEL_TEXT = (
     "Exploration: for each generated code section the written file is decoded by an independent parser that "
@@ -343,7 +343,7 @@ def cases(draw, max_size, exclude):
     if KF_ADDR16 in exclude and address + size > 0x10000:
         if address >= 0x10000:
             address = 0
-        size = min(size, 0x10000 - address)
+        size = max(0, 0x10000 - address - size % 211)  # stays below the limit, sizes spread just under it
         excluded.append(KF_ADDR16)
     if size <= 64 and draw(st.booleans()):
         code = {"hex": draw(st.binary(min_size=size, max_size=size)).hex()}
@@ -445,6 +445,8 @@ def _worker(arg):
 
 
 def run(ctx):
+    import ppci.api  # noqa: F401  (imported before the pool forks, so that the workers share it)
+
     exclude = sorted(active_findings())
     if exclude:
         ctx.stats.notes.append("generator exclusions active for %s" % ", ".join(exclude))
